@@ -4,7 +4,8 @@
 //!         "reorder_only": tree | {"err":..},    // Optimizer::with_rules([JoinReorder(with the providers' statistics)]) on logical_plan(sql)
 //!         "bound": tree,                         // the bound, unoptimised plan (what the rule starts from)
 //!         "stats": {table: {"rows":n,"cols":k}}, // what TableProvider::statistics() reports (k = columns with footer stats)
-//!         "opt": result, "noopt": result}        // with "run": ctx.sql(sql) vs the bound plan executed unoptimised
+//!         "opt": result, "noopt": result,        // with "run": ctx.sql(sql) vs the bound plan executed unoptimised
+//!         "reorder_only_result": result}         // with "run": the JoinReorder-alone plan executed
 //! tree := {"scan": table, "filter": [conj...]}                       (filter pushed into the scan)
 //!       | {"join": "Inner"|"Cross"|..., "on": [pair...], "filter": [conj...], "left": tree, "right": tree}
 //!       | {"filter": [conj...], "input": tree}
@@ -145,16 +146,25 @@ fn case(rt: &tokio::runtime::Runtime, v: &Value) -> Value {
     }
     let full = guarded(|| ctx.optimized_plan(sql));
     let bound = guarded(|| ctx.logical_plan(sql));
-    let reorder_only = guarded(|| {
+    let reorder_plan = std::panic::catch_unwind(std::panic::AssertUnwindSafe(|| {
         let logical = ctx.logical_plan(sql)?;
         let rule: Arc<dyn OptimizerRule> = Arc::new(JoinReorder::with_table_statistics(stats.clone()));
         Optimizer::with_rules(vec![rule]).optimize(logical)
-    });
+    }));
+    let reorder_only = match &reorder_plan {
+        Ok(Ok(p)) => tree(p),
+        Ok(Err(e)) => json!({"err": e.to_string()}),
+        Err(_) => json!({"panic": "JoinReorder alone panicked"}),
+    };
     let mut out = json!({"full": full, "reorder_only": reorder_only, "bound": bound,
                          "stats": Value::Object(stats_json)});
     if v.get("run").and_then(|b| b.as_bool()).unwrap_or(false) {
         out["opt"] = sqlutil::run_sql(rt, &ctx, sql);
         out["noopt"] = sqlutil::run_sql_noopt(rt, &ctx, sql);
+        // the plan produced by JoinReorder alone, executed
+        if let Ok(Ok(p)) = &reorder_plan {
+            out["reorder_only_result"] = sqlutil::run_logical(rt, &ctx, p);
+        }
     }
     out
 }
